@@ -123,7 +123,9 @@ def register(P):
                   "clauses": ["C18.", "C08.store", "C10.", "C11.", "C13.", "C03."]},
                  # the general sync worlds add what the migration generator does not vary: a collision count that moved after
                  # the matching revision was recorded, numeric / absent hash labels, engineered name collisions
-                 {"engine": "sync", "quick": 4000, "thorough": 40000, "proj": proj_mig, "extra_seeds": 1, "clauses": ["C18."]}],
+                 {"engine": "sync", "quick": 4000, "thorough": 40000, "proj": proj_mig, "extra_seeds": 1, "clauses": ["C18."]},
+                 # "the FIRST RECONCILES after a migration": several rounds on one controller, status read back from round to round
+                 {"engine": "world", "quick": 1500, "thorough": 20000, "proj": (lambda c, o: o.get("n")), "extra_seeds": 1, "clauses": ["C18."]}],
         "rule": PATCH_RULE,
         "assumptions": [
             "the premise of the reduction theorem — the Advanced codec and the built-in codec encode a set to trees with equal spec.template subtree (one Go "
